@@ -1099,6 +1099,96 @@ func steerServeAfterFailedStart(workers int, emit func(string)) {
 	flushNotes(e.rec, emit)
 }
 
+// steerCloseUnderBackpressure: Shutdown closes the connection while a delivery is blocked on the
+// full in-channel and the listener is about to take the service mutex. The connection's Close
+// waits for the delivery, the delivery waits for the listener, the listener waits for the mutex:
+// Shutdown returns only because it does not hold the mutex while it closes the connection.
+func steerCloseUnderBackpressure(workers int, emit func(string)) {
+	if atomic.LoadInt32(&poolHung) != 0 {
+		return
+	}
+	e := &steerEnv{rec: &recorder{byRep: map[string]int{}, grp: map[int]string{}}, g: &gateCtl{holds: map[int]*hold{}}}
+	setHooks(e.rec.add, e.g.fn)
+	defer e.close()
+	emit("reset")
+	e.s = res.NewService("pool")
+	e.s.SetLogger(svc.NopLogger{})
+	e.s.SetWorkerCount(workers)
+	e.s.SetInChannelSize(1)
+	e.s.Handle("r.$id", res.Call("do", func(r res.CallRequest) {
+		var p struct {
+			ID int `json:"id"`
+		}
+		r.ParseParams(&p)
+		e.rec.add("h.cbstart", "", p.ID)
+		e.rec.add("h.cbend", "", p.ID)
+		r.OK(nil)
+	}))
+	e.conn = recconn.New()
+	served := make(chan struct{})
+	e.s.SetOnServe(func(*res.Service) { close(served) })
+	e.done = make(chan error, 1)
+	hc := make(chan *hold, 1)
+	go func() {
+		// the goroutine that calls Serve is the listener: hold it where it has passed the state check
+		hc <- e.g.holdAt("runWith.checked")
+		e.done <- e.s.Serve(e.conn)
+	}()
+	h := <-hc
+	if waitCh(served, "serve") != nil {
+		return
+	}
+	deliver := func(k int) {
+		e.id++
+		id := e.id
+		reply := fmt.Sprintf("_INBOX.bp%d", id)
+		e.rec.mu.Lock()
+		e.rec.grp[id] = fmt.Sprintf("pool.r.%d", k)
+		e.rec.byRep[reply] = id
+		e.rec.mu.Unlock()
+		e.conn.Deliver(fmt.Sprintf("call.pool.r.%d.do", k), reply, []byte(fmt.Sprintf(`{"params":{"id":%d}}`, id)))
+	}
+	deliver(1)
+	if waitCh(h.arrived, "listener past the state check") != nil {
+		close(h.release)
+		e.shutdown()
+		flushNotes(e.rec, emit)
+		return
+	}
+	deliver(2) // fills the in-channel
+	third := make(chan struct{})
+	go func() { deliver(3); close(third) }() // blocks inside the connection
+	time.Sleep(5 * time.Millisecond)
+	from := e.numNotes()
+	e.rec.add("h.shutdown.begin", "", 0)
+	sd := make(chan struct{})
+	go func() { e.s.Shutdown(); close(sd) }()
+	e.waitNote("c.broadcast", from)
+	time.Sleep(5 * time.Millisecond) // Shutdown is inside the connection's Close now
+	close(h.release)
+	select {
+	case <-sd:
+		e.rec.add("h.shutdown.end", "", 0)
+	case <-time.After(3 * time.Second):
+		e.rec.add("h.shutdown.hung", "", 0)
+		atomic.StoreInt32(&poolHung, 1)
+		flushNotes(e.rec, emit)
+		return
+	}
+	select {
+	case <-e.done:
+	case <-time.After(3 * time.Second):
+		e.rec.add("h.serve.hung", "", 0)
+		atomic.StoreInt32(&poolHung, 1)
+		flushNotes(e.rec, emit)
+		return
+	}
+	waitCh(third, "third delivery")
+	e.rec.add("h.connclosed", "", e.conn.ClosedCount())
+	e.serveCycle()
+	flushNotes(e.rec, emit)
+}
+
 func steerAll(emit func(string)) {
 	for _, w := range []int{1, 2, 3} {
 		steerLateSubmit(w, "slow", emit)
@@ -1119,5 +1209,6 @@ func steerAll(emit func(string)) {
 		steerStaleSubmitAcrossRestart(w, emit)
 		steerServeWhileServing(w, emit)
 		steerServeAfterFailedStart(w, emit)
+		steerCloseUnderBackpressure(w, emit)
 	}
 }
